@@ -78,6 +78,27 @@ Proof.
   rewrite <- Hh1, <- Ht1, <- L1, <- Hh2, <- Ht2, <- L2, <- Hh3, <- Ht3, <- L3 in Hr. simpl in Hr. discriminate.
 Qed.
 
+(* a consequence users rely on: on event-free queries parsing is INJECTIVE — two different query texts
+   never collapse into one tree (head and tail included), so the tree identifies the text it came from *)
+Definition C01_injective_statement : Prop :=
+  forall s1 s2 t, parse s1 = Some (Ok t) -> parse s2 = Some (Ok t) -> no_event s1 -> no_event s2 -> s1 = s2.
+
+Theorem C01_injective : C01_injective_statement.
+Proof.
+  intros s1 s2 t H1 H2 E1 E2.
+  rewrite <- (C01_partial s1 t H1 E1). exact (C01_partial s2 t H2 E2).
+Qed.
+
+(* (without the guard the PRINTED text no longer identifies the input — "foo :bar" and "foo:bar" print alike, F1 —
+   although their trees still differ in the recorded sizes) *)
+Example C01_injective_guard_print :
+  exists t t', parse f1_witness = Some (Ok t) /\ parse [102;111;111;58;98;97;114]%N = Some (Ok t') /\
+               print true t = print true t' /\ t <> t'.
+Proof.
+  eexists. eexists. split; [vm_compute; reflexivity|]. split; [vm_compute; reflexivity|].
+  split; [vm_compute; reflexivity|discriminate].
+Qed.
+
 (* ---- non-vacuity: a query using most productions, with blanks everywhere, has no event *)
 Definition ex_query : str :=
   (* "  (a AND  b:[1 TO 2}) -c~2 \"x y\"~3^4 OR +d  " with a tab and an ideographic space *)
@@ -95,3 +116,4 @@ Proof. split; vm_compute; reflexivity. Qed.
 Print Assumptions C01_any_tables.
 Print Assumptions C01_partial.
 Print Assumptions C01_refuted.
+Print Assumptions C01_injective.
